@@ -219,3 +219,9 @@ def run(prog: Program, res: Result) -> None:  # noqa: PLR0912, PLR0915
     res.rule("C18.R4", "in every Tag.parse, each parse_block is entered with the trim carry of the tag immediately before that block (at most one tag token consumed since the carry was set)")
     check_trim_carry_ownership(prog, res, "C18.R4")
     # the dispatcher refreshes the carry for every tag it dispatches (R3 arm check) and parse_block leaves it set for the end tag
+
+    # ------------------------------------------------------------------ R5 text is carried character for character
+    res.rule("C18.R5", "with no trimming in force literal text is reproduced character for character: neither the output buffers nor the loaders' file reads translate line endings (shared with C06.R2 / C20.R5)")
+    from checks.shared import check_newline_transparency
+
+    check_newline_transparency(prog, res, "C18.R5")
